@@ -243,7 +243,7 @@ func WriteZeroes(data []byte, pos int, len int) int {
 
 // ReadByte read one byte from []byte
 func ReadByte(data []byte, pos int) (byte, int, bool) {
-	if pos >= len(data) {
+	if pos < 0 || pos >= len(data) {
 		return 0, 0, false
 	}
 	return data[pos], pos + 1, true
@@ -251,7 +251,7 @@ func ReadByte(data []byte, pos int) (byte, int, bool) {
 
 // ReadBytes read []byte from pos with sized size
 func ReadBytes(data []byte, pos int, size int) ([]byte, int, bool) {
-	if pos+size-1 >= len(data) {
+	if size < 0 || pos < 0 || pos > len(data) || size > len(data)-pos {
 		return nil, 0, false
 	}
 	return data[pos : pos+size], pos + size, true
@@ -260,7 +260,7 @@ func ReadBytes(data []byte, pos int, size int) ([]byte, int, bool) {
 // ReadBytesCopy returns a copy of the bytes in the packet.
 // Useful to remember contents of ephemeral packets.
 func ReadBytesCopy(data []byte, pos int, size int) ([]byte, int, bool) {
-	if pos+size-1 >= len(data) {
+	if size < 0 || pos < 0 || pos > len(data) || size > len(data)-pos {
 		return nil, 0, false
 	}
 	result := make([]byte, size)
@@ -270,6 +270,9 @@ func ReadBytesCopy(data []byte, pos int, size int) ([]byte, int, bool) {
 
 // ReadNullString read Null terminated string from []byte, return string,pos,if end.
 func ReadNullString(data []byte, pos int) (string, int, bool) {
+	if pos < 0 || pos > len(data) {
+		return "", 0, false
+	}
 	end := bytes.IndexByte(data[pos:], 0)
 	if end == -1 {
 		return "", 0, false
@@ -279,6 +282,9 @@ func ReadNullString(data []byte, pos int) (string, int, bool) {
 
 // ReadNullString read Null terminated string from []byte, return byet,pos,if end.
 func ReadNullByte(data []byte, pos int) ([]byte, int, bool) {
+	if pos < 0 || pos > len(data) {
+		return []byte{}, 0, false
+	}
 	end := bytes.IndexByte(data[pos:], 0)
 	if end == -1 {
 		return []byte{}, 0, false
@@ -288,7 +294,7 @@ func ReadNullByte(data []byte, pos int) ([]byte, int, bool) {
 
 // ReadUint16 read uint32 from []byte
 func ReadUint16(data []byte, pos int) (uint16, int, bool) {
-	if pos+1 >= len(data) {
+	if pos < 0 || pos >= len(data) || len(data)-pos <= 1 {
 		return 0, 0, false
 	}
 	return binary.LittleEndian.Uint16(data[pos : pos+2]), pos + 2, true
@@ -296,7 +302,7 @@ func ReadUint16(data []byte, pos int) (uint16, int, bool) {
 
 // ReadUint32 read uint32 from []byte
 func ReadUint32(data []byte, pos int) (uint32, int, bool) {
-	if pos+3 >= len(data) {
+	if pos < 0 || pos >= len(data) || len(data)-pos <= 3 {
 		return 0, 0, false
 	}
 	return binary.LittleEndian.Uint32(data[pos : pos+4]), pos + 4, true
@@ -304,7 +310,7 @@ func ReadUint32(data []byte, pos int) (uint32, int, bool) {
 
 // ReadUint64 read uint64 from []byte
 func ReadUint64(data []byte, pos int) (uint64, int, bool) {
-	if pos+7 >= len(data) {
+	if pos < 0 || pos >= len(data) || len(data)-pos <= 7 {
 		return 0, 0, false
 	}
 	return binary.LittleEndian.Uint64(data[pos : pos+8]), pos + 8, true
@@ -314,7 +320,7 @@ func ReadUint64(data []byte, pos int) (uint64, int, bool) {
 // https://dev.mysql.com/doc/internals/en/integer.html#packet-Protocol::FixedLengthInteger
 func ReadLenEncInt(data []byte, pos int) (uint64, int, bool, bool) {
 	isNull := false
-	if pos >= len(data) {
+	if pos < 0 || pos >= len(data) {
 		return 0, 0, isNull, false
 	}
 	switch data[pos] {
@@ -361,7 +367,7 @@ func readLenEncString(data []byte, pos int) (string, int, bool) {
 		return "", 0, false
 	}
 	s := int(size)
-	if pos+s-1 >= len(data) {
+	if s < 0 || s > len(data)-pos {
 		return "", 0, false
 	}
 	return string(data[pos : pos+s]), pos + s, true
@@ -374,7 +380,7 @@ func skipLenEncString(data []byte, pos int) (int, bool) {
 		return 0, false
 	}
 	s := int(size)
-	if pos+s-1 >= len(data) {
+	if s < 0 || s > len(data)-pos {
 		return 0, false
 	}
 	return pos + s, true
@@ -387,7 +393,7 @@ func ReadLenEncStringAsBytes(data []byte, pos int) ([]byte, int, bool, bool) {
 		return nil, 0, isNull, false
 	}
 	s := int(size)
-	if pos+s-1 >= len(data) {
+	if s < 0 || s > len(data)-pos {
 		return nil, 0, isNull, false
 	}
 	return data[pos : pos+s], pos + s, isNull, true
